@@ -81,6 +81,8 @@ type Node struct {
 
 	rec *Rec
 	c   *Cluster
+	// message being stepped (for the abstract-protocol tracer)
+	stepping *pb.Message
 }
 
 type confAt struct {
@@ -140,6 +142,9 @@ func (n *Node) call(op string, f func() string) (out string, panicked bool) {
 	n.rec.add(line, out, state)
 	if live && !panicked {
 		n.c.Mon.afterCall(n, op)
+		if n.c.Spec != nil {
+			n.c.Spec.afterOp(n, strings.Fields(op)[0], n.stepping)
+		}
 	}
 	return out, panicked
 }
@@ -216,7 +221,9 @@ func (n *Node) Step(m *pb.Message) error {
 	sb.WriteString("step ")
 	tokMsg(&sb, m)
 	var err error
+	n.stepping = m
 	n.call(sb.String(), func() string { err = n.RN.Step(m); return errText(err) })
+	n.stepping = nil
 	return err
 }
 
